@@ -134,6 +134,29 @@ fn random_conf(r: &mut Rng, i: usize) -> MessageConfig {
         payload: m.payload.clone(),
         extended_header_info: m.extended_header.as_ref().map(|x| ExtendedHeaderConfig { message_type: x.message_type.clone(), app_id: x.application_id.clone(), context_id: x.context_id.clone() }),
     };
+    if i % 25 == 7 {
+        // exactly 254 / 255 arguments or slices (NOAR is an 8-bit field)
+        let n = if r.coin() { 255 } else { 254 };
+        if r.coin() {
+            c.payload = PayloadContent::Verbose((0..n).map(|_| Argument { type_info: TypeInfo { kind: TypeInfoKind::Bool, coding: StringCoding::ASCII, has_variable_info: false, has_trace_info: false },
+                name: None, unit: None, fixed_point: None, value: Value::Bool(1) }).collect());
+            c.extended_header_info = Some(ExtendedHeaderConfig { message_type: MessageType::Log(LogLevel::Info), app_id: "A".into(), context_id: "C".into() });
+        } else {
+            c.payload = PayloadContent::NetworkTrace((0..n).map(|k| vec![k as u8]).collect());
+            c.extended_header_info = Some(ExtendedHeaderConfig { message_type: MessageType::NetworkTrace(NetworkTraceType::Can), app_id: "A".into(), context_id: "C".into() });
+        }
+        return c;
+    }
+    if i % 25 == 13 {
+        // the largest payloads that still fit the 16-bit length field with the headers this configuration has
+        let hdrs = 4 + 4 * (c.ecu_id.is_some() as usize + c.session_id.is_some() as usize + c.timestamp.is_some() as usize);
+        let ext = r.coin();
+        let room = 65535 - hdrs - if ext { 10 } else { 0 };
+        let plen = room - *r.pick(&[0usize, 1, 2, 9, 10, 11, 22]);
+        c.payload = PayloadContent::NonVerbose(r.next() as u32, r.bytes(plen - 4));
+        c.extended_header_info = if ext { Some(ExtendedHeaderConfig { message_type: MessageType::Log(LogLevel::Warn), app_id: "A".into(), context_id: "C".into() }) } else { None };
+        return c;
+    }
     match r.below(12) {
         0 => c.extended_header_info = None,                                                               // any payload kind without extended header
         1 => if let Some(x) = &mut c.extended_header_info { x.message_type = gen::message_type(r, &[]) }, // any message type
@@ -198,6 +221,19 @@ pub fn record(mode: &str, seed: u64, n: usize, out: &mut Out) {
         "real" => {
             let qs = [0.0f32, -0.0, f32::MIN_POSITIVE, -f32::MIN_POSITIVE, 0.01, 0.5, 1.0, 1.5, -1.0, 1e10, 1e20, 1e38, f32::INFINITY, f32::NEG_INFINITY, f32::NAN, 255.0, 1.0 / 3.0];
             let offs = [0i64, 1, -1, 200, -200, i32::MAX as i64, i32::MIN as i64, i64::MAX, i64::MIN, 1 << 40, -(1 << 40)];
+            // products at the edges of the domain: 2^63 +- small, 2^64 - small, with offsets that move the sum across 2^63 / 0
+            for (val, q) in [(Value::U64(1 << 63), 1.0f32), (Value::I32(1 << 30), 8589934592.0), (Value::U64((1 << 63) + 2048), 1.0), (Value::U64((1 << 63) - 1024), 1.0), (Value::U64(u64::MAX - 2047), 1.0),
+                             (Value::U32(1 << 31), 4294967296.0), (Value::I64(i64::MAX), 1.0), (Value::U64(1 << 62), 2.0), (Value::U64(1), 0.5), (Value::I64(-1), 0.5), (Value::I8(-1), 1.0)] {
+                for off in [0i64, -1, 1, -200, 200, -2048, -4096, i32::MIN as i64, i32::MAX as i64, i64::MIN, i64::MIN + 1, -i64::MAX, i64::MAX] {
+                    for w64 in [false, true] {
+                        if !w64 && (off > i32::MAX as i64 || off < i32::MIN as i64) { continue; }
+                        let a = Argument { type_info: TypeInfo { kind: TypeInfoKind::UnsignedFixedPoint(if w64 { FloatWidth::Width64 } else { FloatWidth::Width32 }), coding: StringCoding::ASCII, has_variable_info: false, has_trace_info: false },
+                            name: None, unit: None, fixed_point: Some(FixedPoint { quantization: q, offset: if w64 { FixedPointValue::I64(off) } else { FixedPointValue::I32(off as i32) } }), value: val.clone() };
+                        out.calls += 1;
+                        out.emit(real_event(&a), true);
+                    }
+                }
+            }
             for i in 0..n {
                 let mut a = gen::argument(&mut r, 8);
                 // bias towards the fixed-point kinds, with every integer width as the carried value
